@@ -22,8 +22,20 @@ pub struct Case {
 /// Recorded panics are listed in known_findings.json with `panic_file` (path suffix) and
 /// `panic_message_prefix`. Matching is on the file and the beginning of the message, never on
 /// the line number.
-fn classify(p: &PanicInfo, known: &Known) -> Option<String> {
+fn classify(p: &PanicInfo, known: &Known, case: &Case) -> Option<String> {
     for e in &known.entries {
+        // optional narrowing of a signature whose message is generic (`unwrap()` on None ...): the
+        // kind of input and a text the input must contain
+        if let Some(k) = e.get("input_kind").and_then(|x| x.as_str()) {
+            if k != case.kind {
+                continue;
+            }
+        }
+        if let Some(t) = e.get("input_contains").and_then(|x| x.as_str()) {
+            if !case.input.contains(t) {
+                continue;
+            }
+        }
         let (Some(file), Some(msg), Some(id)) = (
             e.get("panic_file").and_then(|x| x.as_str()),
             e.get("panic_message_prefix").and_then(|x| x.as_str()),
@@ -50,6 +62,13 @@ const VOCAB: &[&str] = &[
     // s-strings in relation and expression position, raw strings, strings with multi-byte text
     "from s\"SELECT * FROM t1\"", "s\"SELECT id, a FROM t1 WHERE a > 1\"", "s\"select 1 as id\"", "s\"SELECT\"", "s\"SEL\"", "s\"\"",
     "\"\\u{0000041}\"", "\"\\u{110000}\"", "\"\\u{}\"", "\"\\u{D800}\"", "\"\\x4\"", "\"\\u{41\"", "f\"\\u{00000041}{a}\"",
+    // inline data: JSON / CSV cells at the edges of i64, u64 and f64
+    "from_text format:json '[{\"a\": 9223372036854775807, \"b\": 9223372036854775808}]'",
+    "from_text format:json '[{\"a\": 18446744073709551615}, {\"a\": -9223372036854775809}]'",
+    "from_text format:json '{\"columns\": [\"a\", \"b\"], \"data\": [[18446744073709551616, 1e400], [-1e-400, 12345678901234567890]]}'",
+    "from_text format:json '[{\"a\": 1.7976931348623157e308, \"b\": [1], \"c\": {\"d\": 1}}]'",
+    "from_text format:json '[]'", "from_text format:json '[{}]'", "from_text format:json '{\"columns\": [], \"data\": [[1]]}'",
+    "from_text format:csv 'a,b\n99999999999999999999,1e999\n-0,'", "from_text format:csv ''", "from_text 'a\n\"x'",
     "(s\"SELECT * FROM {t1}\")", "s\"COALESCE({a}, 0)\"", "r\"a\\b\"", "\"é漢😀\"", "f\"é{a}漢\"", "'''a'''", "\"\\u{1F600}\"", "\"\\x41\"",
 ];
 
@@ -73,6 +92,31 @@ fn base_source(t: &mut Tape) -> String {
     if t.chance(1, 8) {
         let re = regex::Regex::new(r"from (t[0-9])\b").unwrap();
         src = re.replace(&src, "from s\"SELECT * FROM $1\"").into_owned();
+    } else if t.chance(1, 8) {
+        // ... or through inline data whose cells sit at the edges of the numeric types
+        const CELLS: &[&str] = &[
+            "0", "-1", "7", "9223372036854775807", "9223372036854775808", "-9223372036854775808", "-9223372036854775809",
+            "18446744073709551615", "18446744073709551616", "123456789012345678901234567890", "1e308", "1e400", "-1e-400", "0.1", "1E5", "-0",
+            "-0.0", "true", "null", "\"x\"", "1.7976931348623157e308", "4.9e-324",
+        ];
+        let re = regex::Regex::new(r"from (t[0-9])\b").unwrap();
+        let nrows = 1 + t.choose(3);
+        let cols = ["id", "a", "b", "k", "x"];
+        let data = match t.choose(3) {
+            0 => {
+                let rows: Vec<String> = (0..nrows).map(|_| format!("{{{}}}", cols.iter().map(|c| format!("\"{c}\": {}", t.pick(CELLS))).collect::<Vec<_>>().join(", "))).collect();
+                format!("from_text format:json '[{}]'", rows.join(", "))
+            }
+            1 => {
+                let rows: Vec<String> = (0..nrows).map(|_| format!("[{}]", cols.iter().map(|_| t.pick(CELLS).to_string()).collect::<Vec<_>>().join(", "))).collect();
+                format!("from_text format:json '{{\"columns\": [{}], \"data\": [{}]}}'", cols.iter().map(|c| format!("\"{c}\"")).collect::<Vec<_>>().join(", "), rows.join(", "))
+            }
+            _ => {
+                let rows: Vec<String> = (0..nrows).map(|_| cols.iter().map(|_| t.pick(CELLS).replace('"', "")).collect::<Vec<_>>().join(",")).collect();
+                format!("from_text format:csv '{}\\n{}'", cols.join(","), rows.join("\\n"))
+            }
+        };
+        src = re.replace(&src, format!("from ${{1}} = ({data})").as_str()).into_owned();
     }
     src
 }
@@ -560,7 +604,7 @@ fn judge_driven(case: &Case, panic: Option<(String, PanicInfo)>, reached: &str, 
         out.sample = Some(json!({"kind": case.kind, "input": case.input.chars().take(300).collect::<String>(), "reached": reached}));
     }
     if let Some((stage, p)) = panic {
-        match classify(&p, known) {
+        match classify(&p, known, case) {
             Some(id) => {
                 out.verdict = Verdict::Known(id, format!("{} panics at {}: {}", stage, p.file, p.message.chars().take(80).collect::<String>()));
             }
